@@ -65,8 +65,41 @@ pub fn recode(rec: &mut kernel::rec::Rec, lib: &dyn Lib, g: Grp, ty: Ty, ci: Cod
 /// prefix through 7/8/15/16/17/23/24 — and the SHAKE-128 rate 168)
 pub const LEN_CLASSES: [usize; 38] = [0, 1, 31, 32, 33, 127, 128, 129, 255, 256, 257, 4096, 16382, 16383, 16384, 65536, 40, 100, 55, 56, 63, 64, 65, 119, 120, 167, 168, 169, 7, 8, 15, 16, 17, 23, 24, 336, 65535, 65537];
 
+/// Composite boundaries: lengths at which something the library puts in FRONT of the message (a 48- or 96-byte
+/// public key in the augmentation scheme, a 1-3 byte length prefix in the encryption framings) makes the total
+/// land on, just below or just above a power of two, a hash block multiple or a XOF rate multiple.
+pub const COMPOSITE_BASE: usize = 1000;
+pub fn composite_lens() -> &'static [usize] {
+    static L: std::sync::OnceLock<Vec<usize>> = std::sync::OnceLock::new();
+    L.get_or_init(|| {
+        let mut v = vec![];
+        for b in [32usize, 64, 128, 136, 168, 256, 272, 336, 512, 1024, 2048, 4096, 8192, 16384, 32768, 65536] {
+            for pre in [48usize, 96, 1, 2, 3] {
+                for d in [0isize, -1, 1] {
+                    let l = b as isize - pre as isize + d;
+                    if l >= 0 && !LEN_CLASSES.contains(&(l as usize)) {
+                        v.push(l as usize);
+                    }
+                }
+            }
+        }
+        v.sort();
+        v.dedup();
+        v
+    })
+}
+pub fn len_of_class(class: usize) -> Option<usize> {
+    if class < LEN_CLASSES.len() {
+        Some(LEN_CLASSES[class])
+    } else if class >= COMPOSITE_BASE && class - COMPOSITE_BASE < composite_lens().len() {
+        Some(composite_lens()[class - COMPOSITE_BASE])
+    } else {
+        None
+    }
+}
+
 pub fn message(x: &mut kernel::seams::Xo, class: usize) -> Vec<u8> {
-    let len = if class < LEN_CLASSES.len() { LEN_CLASSES[class] } else { x.below(300) as usize };
+    let len = len_of_class(class).unwrap_or_else(|| x.below(300) as usize);
     match x.below(4) {
         0 => vec![0u8; len],
         1 => vec![0xffu8; len],
@@ -76,8 +109,14 @@ pub fn message(x: &mut kernel::seams::Xo, class: usize) -> Vec<u8> {
 /// small lengths mostly, with the boundary classes sprinkled in
 pub fn pick_len_class(x: &mut kernel::seams::Xo, allow_huge: bool) -> usize {
     loop {
-        let c = if x.chance(1, 3) { 99 } else { x.below(LEN_CLASSES.len() as u64) as usize };
-        if c < LEN_CLASSES.len() && LEN_CLASSES[c] >= 4096 && !(allow_huge && x.chance(1, 6)) {
+        let c = if x.chance(1, 3) {
+            99
+        } else if x.chance(1, 5) {
+            COMPOSITE_BASE + x.below(composite_lens().len() as u64) as usize
+        } else {
+            x.below(LEN_CLASSES.len() as u64) as usize
+        };
+        if len_of_class(c).is_some_and(|l| l > 4200) && !(allow_huge && x.chance(1, 6)) {
             continue;
         }
         return c;
@@ -85,7 +124,33 @@ pub fn pick_len_class(x: &mut kernel::seams::Xo, allow_huge: bool) -> usize {
 }
 
 /// Key classes: 1, 2, r-2, r-1, from_hash(seed), seeded random. Returns the 32-byte BE key.
+/// Limb-pattern keys: each of the four 64-bit words of the scalar is one of six values — zero, one, one byte
+/// 0x80 at either end of the word, all ones, a lone top byte — (6^4 = 1296 keys; words that would make the
+/// value >= r are masked, the all-zero pattern becomes 1). Word-wise arithmetic over the key bytes (carry
+/// chains, word sums, branch-free zero tests) meets its corner cases here, not under uniform sampling.
+pub const LIMB_KEY_BASE: u64 = 100;
+pub const LIMB_KEYS: u64 = 1296;
+pub fn limb_key(i: u64) -> Vec<u8> {
+    const W: [u64; 6] = [0, 1, 0x80, 1 << 63, u64::MAX, 1 << 56];
+    let mut l = [W[(i % 6) as usize], W[(i / 6 % 6) as usize], W[(i / 36 % 6) as usize], W[(i / 216 % 6) as usize]];
+    // r's top word is 0x73eda753299d7d48: keep the top word below it
+    if l[3] >= 0x73ed_a753_299d_7d48 {
+        l[3] &= 0x3fff_ffff_ffff_ffff;
+    }
+    if l == [0, 0, 0, 0] {
+        l[0] = 1;
+    }
+    let mut be = Vec::with_capacity(32);
+    for w in l.iter().rev() {
+        be.extend_from_slice(&w.to_be_bytes());
+    }
+    be
+}
+
 pub fn key_of_class(rec: &mut kernel::rec::Rec, lib: &dyn Lib, g: Grp, class: u64, salt: u64) -> Vec<u8> {
+    if class >= LIMB_KEY_BASE {
+        return limb_key(class - LIMB_KEY_BASE);
+    }
     match class % 6 {
         0 => refimpl::scalar_to_be(&refimpl::scalar_from_u64(1)),
         1 => refimpl::scalar_to_be(&refimpl::scalar_from_u64(2)),
@@ -100,5 +165,13 @@ pub fn key_of_class(rec: &mut kernel::rec::Rec, lib: &dyn Lib, g: Grp, class: u6
             kernel::seams::Xo::new(salt ^ 0x5EED_4B1D).fill(&mut s);
             rec.call(lib, g, Op::KeyRandomSeeded, &[&s]).first().map(|b| b.to_vec()).unwrap_or_default()
         }
+    }
+}
+
+#[cfg(test)]
+mod tests {
+    #[test]
+    fn composite_count() {
+        assert_eq!(super::composite_lens().len(), 141);
     }
 }
